@@ -3,6 +3,7 @@
 A case is a tuple (kind, ...):
 
   ('text',     files, path, parts, minP)          saveAsTextFile(parts) to `path`, then textFile(path, minP)
+  ('textwhole', files, path, parts, minP)         saveAsTextFile(parts) to `path`, then wholeTextFiles(path, minP)
   ('pickle',   files, path, parts, minP, table)   saveAsPickleFile / pickleFile; table = [(objects, stdlib pickle bytes)]
   ('read',     files, path, minP, meta)           textFile over files written by the harness
   ('whole',    files, path, minP, meta)           wholeTextFiles
@@ -47,7 +48,10 @@ SHARD = 80
 RULE = ('savers: every extension of the property (none .gz .bz2 .xz .lzma .zip .tar .tar.gz .tar.bz2, plus .txt and an '
         'upper-case extension) x 1..5 partitions (exhaustive shapes incl. empty partitions and the empty data set, explicit '
         'partition contents via Context._parallelize_partitions and the public parallelize) x string lists over '
-        'ASCII / Unicode (2-, 3-, 4-byte utf8, boundary code points) / non-breaking whitespace / empty-string alphabets x '
+        'ASCII / Unicode (2-, 3-, 4-byte utf8, boundary code points) / non-breaking whitespace / empty-string alphabets / '
+        'characters that codecs treat specially (U+FEFF, U+FFFE, NUL, SUB, DEL, U+FFFD, combining marks, joiners, bidi '
+        'controls, private use, astral) placed at the start / middle / end of the first element of a partition, of a '
+        'later element and of file contents x '
         'minPartitions in {None,1,3,7} x path shapes (absolute, relative, dotted directory, hidden, unicode name); '
         'pickle the same over ints/floats/strings/tuples/None/bools/lists; readers over harness-written trees '
         '(part*, markers, nested directories, every std-lib container incl. multi-member zip/tar and legacy .lzma) with '
@@ -242,6 +246,12 @@ def impl(case):
                 listing = s.listing(absolute)
                 back = Context().textFile(rp, minp).glom().collect()
                 return (listing, [list(p) for p in back])
+            if kind == 'textwhole':
+                parts, minp = case[3], case[4]
+                _rdd(sc, parts).saveAsTextFile(rp)
+                listing = s.listing(absolute)
+                back = Context().wholeTextFiles(rp, minp).glom().collect()
+                return (listing, [[(s.canon(n), c) for n, c in p] for p in back])
             if kind == 'pickle':
                 parts, minp = case[3], case[4]
                 _rdd(sc, [fresh(p) for p in parts]).saveAsPickleFile(rp)
@@ -299,7 +309,7 @@ def _below(name, path):
 
 def _oracle_save(case, result, what):
     kind, files, path, parts, minp = case[:5]
-    site = 'saveAsTextFile' if kind == 'text' else 'saveAsPickleFile'
+    site = 'saveAsTextFile' if kind in ('text', 'textwhole') else 'saveAsPickleFile'
     pre = {n for n, _ in files}
     if isinstance(result, Err):
         if result.name == 'FileAlreadyExistsException' and any(_below(n, path) for n in pre):
@@ -307,6 +317,17 @@ def _oracle_save(case, result, what):
         return (f'{site}:raised:{result.name}', f'{site}/{what} to {path!r} with {len(parts)} partitions raised {result.name}')
     listing, back = result
     ext = _ext_of(path)
+    if kind == 'textwhole':
+        if any(not isinstance(x, str) or _has_break(x) or not _scalar(x) for x in _flat(parts)):
+            return None
+        data = sorted(n for n, _ in listing if n not in pre and _below(n, path) and not n.endswith('/_SUCCESS'))
+        chunks = [_flat(parts)] if len(parts) == 1 else parts
+        want = [(('' if '/' in path or len(parts) == 1 else './') + n, ''.join(x + '\n' for x in c))
+                for n, c in zip(data, chunks)]
+        if len(data) != len(chunks) or _flat(back) != want:
+            return (f'wholeTextFiles:saved-data-set:ext={ext or "none"}',
+                    f'{path!r} partitions={len(parts)}: wholeTextFiles gave {_flat(back)!r}, expected {want!r}')
+        return None
     if kind == 'text':
         if any(not isinstance(x, str) or _has_break(x) or not _scalar(x) for x in _flat(parts)):
             return None     # outside the property's quantifier
@@ -326,18 +347,6 @@ def _oracle_save(case, result, what):
             if isinstance(c, Err):
                 return (f'{site}:invalid-stream:ext={ext}',
                         f'data file {n!r} is not a valid stream of the format its name declares ({c.name})')
-        if kind == 'text':
-            want = ''.join(x + '\n' for x in _flat(parts)).encode('utf8')
-            got = b''.join(c for _, c in data)
-            if got != want:
-                return (f'{site}:decoded-content:ext={ext}', f'decoded data files hold {got!r}, expected {want!r}')
-        else:
-            try:
-                got = [x for _, c in data for x in pickle.loads(c)]
-            except Exception as e:  # pylint: disable=broad-except
-                return (f'{site}:decoded-content:ext={ext}', f'decoded data file is not a pickle: {type(e).__name__}')
-            if not _same(got, _flat(parts)):
-                return (f'{site}:decoded-content:ext={ext}', f'decoded data files hold {got!r}')
     return None
 
 
@@ -353,6 +362,8 @@ def oracle(case, result):
     kind = case[0]
     if kind == 'text':
         return _oracle_save(case, result, 'textFile')
+    if kind == 'textwhole':
+        return _oracle_save(case, result, 'wholeTextFiles')
     if kind == 'pickle':
         return _oracle_save(case, result, 'pickleFile')
     if kind == 'codec':
@@ -410,7 +421,7 @@ def oracle(case, result):
 
 def nontrivial(case, result):
     kind = case[0]
-    if kind in ('text', 'pickle'):
+    if kind in ('text', 'pickle', 'textwhole'):
         return len(_flat(case[3])) > 0 and not isinstance(result, Err)
     if kind == 'codec':
         return '.' in case[1]
@@ -419,7 +430,7 @@ def nontrivial(case, result):
 
 def kind(case):
     k = case[0]
-    if k in ('text', 'pickle'):
+    if k in ('text', 'pickle', 'textwhole'):
         return f'{k}:{_ext_of(case[2]) or "none"}:p{len(case[3])}'
     if k == 'records':
         a = case[3]
@@ -432,10 +443,15 @@ ASCII = 'abcXYZ019 _-.,;:!?()[]{}<>/\\|"\'=+*&%$#@~^`'
 UNI = ('\u00e9\u00df\u00f1\u03a9\u0436\u05e9\u0639\u4e2d\u65e5\ud55c\U0001f600\U0001d11e\u07ff\u0800\uffff'
        '\U00010000\U0010ffff\ud7ff\ue000\u00ff\u0100\u00a9\u007f\u0080')
 SPACE = ' \t\u00a0\u2003\u3000\u200b\u1680\x1f'     # white space that is not a line break for str.splitlines
+# characters that encoders / decoders / text layers are known to treat specially (none is a line break):
+# BOM / ZWNBSP, its byte-swapped twin, NUL, SUB (DOS end-of-file), DEL, replacement character, soft hyphen,
+# combining marks, joiners, bidi controls, variation selectors, private use, astral and last code points
+SPECIAL = ('\ufeff\ufffe\x00\x1a\x7f\ufffd\u00ad\u0301\u0308\u20dd\u200d\u200c\u200e\u202e\u2066\ufe0f\u061c\ue000'
+           '\U000e0001\U0001f468\U000f0000\U0010fffd\U0010ffff\x01\x08\x1b')
 
 
 def gen_string(rng, alpha=None):
-    alpha = alpha or rng.choice([ASCII, ASCII, UNI, SPACE, ASCII + UNI + SPACE])
+    alpha = alpha or rng.choice([ASCII, ASCII, UNI, SPACE, SPECIAL, ASCII + UNI + SPACE + SPECIAL, ASCII + SPECIAL])
     r = rng.random()
     if r < 0.18:
         return ''
@@ -511,7 +527,7 @@ def save_cases(rng, tier):
                     cases.append(('text', [], gen_target(rng, ext), parts, minp))
     # one alphabet at a time, every extension
     for ext in EXTS:
-        for alpha in (ASCII, UNI, SPACE, ''):
+        for alpha in (ASCII, UNI, SPACE, SPECIAL, ''):
             for _ in range(reps):
                 n_parts = rng.randint(1, 5)
                 parts = gen_parts(rng, n_parts, (lambda r, a=alpha: gen_string(r, a) if a else ''))
@@ -540,9 +556,91 @@ def save_cases(rng, tier):
     return cases
 
 
+def placements(c, word='ab'):
+    """The character alone, at the start, in the middle, at the end, doubled at the start."""
+    return [c, c + word, word[:1] + c + word[1:], word + c, c + c + word]
+
+
+def special_cases(rng, tier):
+    """Every special character at the start / middle / end of an element that is the FIRST element of the first
+    partition, the first element of a later partition, and a non-first element; and at the start / middle / end
+    of file contents handed to the readers.  Extensions rotate (all of them in the thorough tier)."""
+    cases = []
+    k = 0
+    for c in SPECIAL:
+        for w in placements(c):
+            exts = EXTS if tier != 'quick' else [EXTS[k % len(EXTS)], EXTS[(k + 4) % len(EXTS)]]
+            k += 1
+            for ext in exts:
+                shapes = [[[w]], [[w, 'x']], [['x'], [w, 'y']], [['x', w], []], [[w], [w], [w, w]]]
+                for parts in (shapes if tier != 'quick' else rng.sample(shapes, 2)):
+                    kind_ = 'text' if rng.random() < 0.7 else 'textwhole'
+                    cases.append((kind_, [], gen_target(rng, ext), parts, rng.choice([None, 1, 3, 7])))
+            # the readers: the character at the start / middle / end of a file, also next to line breaks
+            ext = EXTS[k % len(EXTS)]
+            for content in (w, w + '\n', w + '\r\n' + w, '\n' + w, w + '\u2028' + w):
+                name = f'{BASE}/sp{ext}'
+                for kind_ in (('whole', 'read') if tier != 'quick' else (rng.choice(['whole', 'read']),)):
+                    cases.append((kind_, [(name, content.encode('utf8'))], name, None, None))
+            tree = f'{BASE}/spd'
+            cases.append((rng.choice(['whole', 'read']),
+                          [(f'{tree}/part-00000{ext}', w.encode('utf8')), (f'{tree}/part-00001{ext}', b''),
+                           (f'{tree}/part-00002{ext}', (w + '\n' + w).encode('utf8'))], tree, rng.choice([None, 2]), None))
+    # line-break class characters are legal in wholeTextFiles contents: start / middle / end
+    for c in BREAKS:
+        for w in placements(c):
+            name = f'{BASE}/br' + rng.choice(EXTS)
+            cases.append(('whole', [(name, w.encode('utf8'))], name, None, None))
+            cases.append(('read', [(name, w.encode('utf8'))], name, None, None))
+    # strings in pickles
+    for c in SPECIAL[:8]:
+        parts = [[c + 'ab', 'x'], [('t', c), c]]
+        cases.append(('pickle', [], gen_target(rng, rng.choice(EXTS)), parts, None, pickle_table(parts)))
+    return cases
+
+
+def edge_shape_cases(rng, tier):
+    """Small partition shapes around the empty string / empty partition, every extension; saved data sets read back
+    through wholeTextFiles (empty part files must keep their (path, '') entry); long partitions with repeated
+    objects in pickles."""
+    cases = []
+    shapes = [[['']], [[''], ['']], [['a'], [''], ['b']], [['', '']], [[], ['']], [[''], []], [[' ']], [['a', '']],
+              [['', 'a']], [[], [], []], [[]], [['a'], [], ['b'], []]]
+    for ext in EXTS:
+        for parts in (shapes if tier != 'quick' else rng.sample(shapes, 5)):
+            cases.append(('text', [], gen_target(rng, ext), parts, rng.choice([None, 3])))
+        for parts in rng.sample(shapes, 3 if tier == 'quick' else 8):
+            cases.append(('textwhole', [], gen_target(rng, ext), parts, rng.choice([None, 2, 7])))
+        for _ in range(2 if tier == 'quick' else 10):
+            parts = gen_parts(rng, rng.randint(1, 5), gen_string)
+            cases.append(('textwhole', [], gen_target(rng, ext), parts, rng.choice([None, 1, 3, 7])))
+    # more than ten objects in one partition with repeated (identical and equal) objects
+    for ext in ('', '.gz', '.zip', '.tar.bz2'):
+        for n_parts in (1, 2):
+            words = [gen_string(rng, ASCII) + str(i) for i in range(rng.randint(4, 9))]
+            tup = (1, 'k')
+            big = (words + words + [tup, tup] + words[2:6])[:rng.randint(12, 30)]
+            parts = [big] + [[rng.choice(words) for _ in range(rng.randint(0, 14))] for _ in range(n_parts - 1)]
+            cases.append(('pickle', [], gen_target(rng, ext), parts, rng.choice([None, 3]), pickle_table(parts)))
+        for big in (['a', 'b', 'c'] * 9, [''] * 15, ['x', (), 'y', ()] * 4, list('abcdefghijkl') + ['b', 'c', 'k']):
+            parts = [list(big)] if ext in ('', '.zip') else [list(big), ['a'], list(big[:11])]
+            cases.append(('pickle', [], gen_target(rng, ext), parts, None, pickle_table(parts)))
+    # framed records whose last record(s) are empty
+    for w in (1, 2, 4, 8):
+        for be in (False, True):
+            for recs in ([b''], [b'abc', b''], [b'x', b'', b''], [b'', b'y'], []):
+                fmt = ('>' if be else '<') + FMT[w]
+                name = f'{BASE}/tail' + rng.choice(['', '.bin', '.gz'])
+                cases.append(('records', [(name, b''.join(struct.pack(fmt, len(r)) + r for r in recs))], name,
+                              (be, w), [(name, recs)]))
+    return cases
+
+
 def gen_text_content(rng):
-    alpha = ASCII + UNI + SPACE
+    alpha = ASCII + UNI + SPACE + SPECIAL
     pieces = []
+    if rng.random() < 0.25:
+        pieces.append(rng.choice(SPECIAL))      # a special character at the very start of the file
     for _ in range(rng.randint(0, 6)):
         pieces.append(gen_string(rng, alpha))
         pieces.append(rng.choice(['\n', '\n', '\r\n', '\r', '\n\r', '\r\r\n', '', '\n\n'] + list(BREAKS)))
@@ -666,6 +764,8 @@ def generate(rng, tier):
             if fn.endswith('.json'):
                 cases.append(uncanon(json.load(open(os.path.join(corpus, fn)))['case']))
     cases += save_cases(rng, tier)
+    cases += special_cases(rng, tier)
+    cases += edge_shape_cases(rng, tier)
     cases += read_cases(rng, tier)
     cases += record_cases(rng, tier)
     cases += codec_cases(rng, tier)
@@ -674,11 +774,11 @@ def generate(rng, tier):
 
 def shrink_candidates(case):
     k = case[0]
-    if k in ('text', 'pickle'):
+    if k in ('text', 'pickle', 'textwhole'):
         files, path, parts, minp = case[1:5]
 
         def mk(ps, mp=minp, fl=files):
-            if k == 'text':
+            if k in ('text', 'textwhole'):
                 return (k, fl, path, ps, mp)
             return (k, fl, path, ps, mp, pickle_table(ps))
         if files:
